@@ -51,6 +51,8 @@ class QueryMachine(SystemMachine):
         super().__init__(scratch, case, queries=True)
         self.touched_scripts = {0, 1}
         self.window_queries = 0
+        self.scheduled = []
+        self.hooks_installed = False
 
     def params_for(self, kind, script, n):
         sh = W.scripthash_hex(W.SCRIPTS[script])
@@ -74,6 +76,66 @@ class QueryMachine(SystemMachine):
         self.touched_scripts.add(op[3])
         method, params = self.params_for(kind, op[3], op[4])
         self.send(c, method, params, {'kind': 'query', 'method': method})
+
+    async def op_query_at(self, op):
+        '''A query fired at the k-th further suspension point of the server (daemon call or
+        worker job), with by-height arguments taken from the in-memory / flushed state at that
+        instant — so requests land between advance and flush, between two backups, between a
+        flush and its notification, wherever the schedule happens to be.'''
+        c = self.client(op[2])
+        if c is None:
+            return
+        self.touched_scripts.add(op[4])
+        self.scheduled.append([op[1], c, QUERY_KINDS[op[3]], op[4], op[5]])
+        if not self.hooks_installed:
+            self.hooks_installed = True
+            loop = asyncio.get_event_loop()
+            machine = self
+            prev_call = self.server.daemon.on_call
+            prev_job = loop.on_job_run
+
+            def tick(_x=None):
+                for item in list(machine.scheduled):
+                    item[0] -= 1
+                    if item[0] <= 0:
+                        machine.scheduled.remove(item)
+                        _, cl, kind, script, n = item
+                        if cl.closed:
+                            continue
+                        method, params = machine.params_at_fire(kind, script, n)
+                        loop.call_soon(machine.send, cl, method, params,
+                                       {'kind': 'query', 'method': method})
+                        bp = machine.server.bp
+                        if bp.state is not None and (bp.state.height != machine.server.db.state.height
+                                                     or bp.state_lock.locked()):
+                            machine.info['classes'].add('query_while_index_in_motion')
+
+            def on_call(name):
+                if prev_call:
+                    prev_call(name)
+                tick()
+
+            def on_job(job):
+                if prev_job:
+                    prev_job(job)
+                tick()
+            self.server.daemon.on_call = on_call
+            loop.on_job_run = on_job
+
+    def params_at_fire(self, kind, script, n):
+        bp, db = self.server.bp, self.server.db
+        mem_tip = bp.state.height if bp.state is not None else 0
+        h = [mem_tip, db.state.height, max(0, mem_tip - 1)][n % 3]
+        sh = W.scripthash_hex(W.SCRIPTS[script])
+        if kind in ('get_history', 'get_balance', 'listunspent', 'get_mempool'):
+            return f'blockchain.scripthash.{kind}', [sh]
+        if kind == 'id_from_pos':
+            return 'blockchain.transaction.id_from_pos', [h, n % 2, bool(n % 4 == 3)]
+        if kind == 'get_merkle':
+            blk = [b for b in self.world.blocks.values() if b.height == h]
+            tx = blk[n % len(blk)].txs[0] if blk else self.world.genesis.txs[0]
+            return 'blockchain.transaction.get_merkle', [W.hexrev(tx.txid), h]
+        return 'blockchain.block.header', [max(0, h - 1 - n % 2), h]
 
     async def op_query_in_reorg(self, op):
         '''Arm: right after the next block is backed out, a history query is sent.'''
@@ -244,7 +306,7 @@ def body(ctx):
     def run(case):
         msg, sig, info = run_case(ctx.scratch, case)
         classes = info['classes']
-        nt = 'query_inside_reorg_window' in classes
+        nt = bool(classes & {'query_inside_reorg_window', 'query_while_index_in_motion'})
         ctx.record(case=case, nontrivial=nt, classes=sorted(classes) + ['case'],
                    sample={'check': 'c10.machine', 'ops': case['ops'][:12],
                            'init_blocks': len(case['init']), 'tape': case['tape'][:20]})
